@@ -3,3 +3,7 @@
 ;@ghost selOK Bool
 ; profile sel (C06): plans known to carry the residual predicate (keyed by the plan node reference)
 ;@ghost filt (Array Int Bool)
+; convtbl[s] = the key expressions in slice s were resolved against the table's own schema (no child plan given)
+;@ghost convtbl (Array Int Bool)
+; ridDone = the index iterator reported that it is exhausted on its last Next
+;@ghost ridDone Bool
